@@ -4,6 +4,7 @@ ROOT="$(cd "$(dirname "$0")/.." && pwd)"; cd "$ROOT"
 tier="${1:-quick}"
 for d in seeded/*/; do
   id=$(basename "$d"); prop=$(python3 -c "import json;print(json.load(open('$d/meta.json'))['breaks'])")
+  if python3 -c "import json,sys;sys.exit(0 if json.load(open('$d/meta.json')).get('superseded') else 1)"; then echo "$id $prop superseded (patch targets code removed by a later fix)"; continue; fi
   SEEDED_COPY=1 tools/seeded.sh run "$id" "$prop" "$tier" > .work/seeded-all-$id.log 2>&1; rc=$?
   echo "$id $prop exit=$rc $(grep -o 'VIOLATION.*' .work/seeded-all-$id.log | head -1 | cut -c1-120)"
 done
